@@ -2029,3 +2029,83 @@ func (fi *FuncInfo) mergedStoreLen(ld *ssa.UnOp) (Lin, bool) {
 	}
 	return l, true
 }
+
+// proveFlat is the cheap front end of proveLE0: Fourier–Motzkin entailment
+// from the path conditions, the extra facts, value facts of the atoms
+// involved and NE tightening — no case split over phis. Sound; used where
+// the needed facts are already path-specific (expanded cases, lemmas).
+func (fi *FuncInfo) proveFlat(goal Lin, conds []Cond, extra []Fact) bool {
+	if goal.isConst() && goal.c <= 0 {
+		return true
+	}
+	facts := append(fi.factsOf(conds), extra...)
+	// keep only facts connected to the goal (transitively through shared atoms)
+	rel := map[string]bool{}
+	for a := range goal.t {
+		rel[a] = true
+	}
+	for changed := true; changed; {
+		changed = false
+		for _, f := range facts {
+			hit := false
+			for a := range f.L.t {
+				if rel[a] {
+					hit = true
+				}
+			}
+			if hit {
+				for a := range f.L.t {
+					if !rel[a] {
+						rel[a] = true
+						changed = true
+					}
+				}
+			}
+		}
+	}
+	var kept []Fact
+	for _, f := range facts {
+		for a := range f.L.t {
+			if rel[a] {
+				kept = append(kept, f)
+				break
+			}
+		}
+	}
+	facts = kept
+	av := fi.atomValues()
+	var vals []ssa.Value
+	for a := range rel {
+		if v, ok := av[a]; ok {
+			vals = append(vals, v)
+		} else if v, ok := fi.loadAtoms[a]; ok {
+			vals = append(vals, v)
+		}
+	}
+	facts = append(facts, fi.valueFacts(vals)...)
+	for a := range rel {
+		facts = append(facts, axiomFacts(a)...)
+	}
+	saved := entailBudget
+	entailBudget = 200000
+	defer func() { entailBudget = saved }()
+	for _, f := range facts {
+		if f.Op != NE {
+			continue
+		}
+		if entails(facts, f.L.scale(-1), 2) {
+			facts = append(facts, Fact{f.L.scale(-1).addc(1), LE})
+		} else if entails(facts, f.L, 2) {
+			facts = append(facts, Fact{f.L.addc(1), LE})
+		}
+	}
+	return entails(facts, goal, 4)
+}
+
+// proveCheap: proveFlat, then the full prover.
+func (fi *FuncInfo) proveCheap(goal Lin, conds []Cond, extra []Fact) bool {
+	if fi.proveFlat(goal, conds, extra) {
+		return true
+	}
+	return fi.proveLE0(goal, conds, extra, map[string]bool{}, 0)
+}
